@@ -1031,7 +1031,7 @@ func seamCases(tier string) int {
 	if tier == "thorough" {
 		return 40
 	}
-	return 6
+	return 4
 }
 
 // genSeamScene: small blobs whose ENTIRE below-threshold region touches only lattice layer
